@@ -694,13 +694,13 @@ func reachPSA(fn *ssa.Function, start ssa.Instruction, target func(ssa.Instructi
 								}
 								am[ph] = t
 							}
-						} else if isNilConst(e) {
+						} else if isNilConst(e) || isFreshError(e) {
 							am2 := am
 							am = map[ssa.Value]bool{}
 							for k, v := range am2 {
 								am[k] = v
 							}
-							am[ph] = false
+							am[ph] = !isNilConst(e)
 						} else {
 							if _, had := am[ph]; had {
 								am2 := am
@@ -831,4 +831,31 @@ func assignedToNamedResult(w *World, fn *ssa.Function, c *ssa.Call, name string)
 		return true
 	})
 	return found
+}
+
+// isFreshError: v is a newly constructed, hence non-nil, error value.
+func isFreshError(v ssa.Value) bool {
+	switch x := v.(type) {
+	case *ssa.Call:
+		if f := x.Common().StaticCallee(); f != nil {
+			if f.Pkg != nil && (f.Pkg.Pkg.Path() == "fmt" && f.Name() == "Errorf" || f.Pkg.Pkg.Path() == "errors" && f.Name() == "New") {
+				return true
+			}
+			if strings.HasPrefix(f.Name(), "New") && strings.HasSuffix(f.Name(), "Error") {
+				return true
+			}
+		}
+	case *ssa.MakeInterface:
+		if _, ok := x.X.(*ssa.Alloc); ok {
+			return true
+		}
+		if c, ok := x.X.(*ssa.Call); ok {
+			if f := c.Common().StaticCallee(); f != nil && strings.HasPrefix(f.Name(), "New") {
+				return true
+			}
+		}
+	case *ssa.ChangeInterface:
+		return isFreshError(x.X)
+	}
+	return false
 }
